@@ -34,10 +34,11 @@ from props import c01 as c01p
 ID = "C08"
 PROPS_FILES = ["Gama/Props/C08.lean", "Gama/Props/C08Solvers.lean", "Gama/Props/C08Net.lean",
                "Gama/Props/C08SvdDecompose.lean", "Gama/Props/C08ProjectEquations.lean",
-               "Gama/Props/C08NetWitness.lean", "Gama/Props/C08InputGap.lean"]
+               "Gama/Props/C08NetWitness.lean", "Gama/Props/C08InputGap.lean",
+               "Gama/Props/C08PeWitness.lean", "Gama/Props/C08Invariants.lean"]
 LEAN_TARGETS = ["Gama.Props.C08", "Gama.Props.C08Solvers", "Gama.Props.C01.Spec", "Gama.Props.C08Net",
                 "Gama.Props.C08SvdDecompose", "Gama.Props.C08ProjectEquations", "Gama.Props.C08NetWitness",
-                "Gama.Props.C08InputGap"]
+                "Gama.Props.C08InputGap", "Gama.Props.C08PeWitness", "Gama.Props.C08Invariants"]
 DRIVERS = ["drv_ls", "drv_minx"]
 RULE = ("ls: free problems (defect>0; dense with planted dependent columns, levelling graphs incl. disconnected; unit / "
         "diagonal / banded SPD covariance) x up to 4 regularisation subsets that resolve the defect (exact rational "
@@ -478,6 +479,35 @@ def net_compare(net, fam, runs, converged=False):
                 if dev > dist_tol:
                     bad.append(f"{who}: distance {a}-{b} of adjusted coordinates differs by {dev:.3g} relative"
                                + (" (after removing the common scale)" if fam == "2d-dir" else ""))
+        # round 11 (clause 6, Props/C08Invariants.lean): ANGLES between adjusted points (at a, from b to c) agree between
+        # the two datum choices to first order.  The program reports X0 + x; two datum solutions differ by a datum
+        # transformation of size D (largest coordinate difference between the two outputs), so an angle with shortest
+        # leg d may differ at second order, (D/d)^2 rad, plus the printed precision of the coordinates (as for distances).
+        if fam != "lev" and not missing:
+            D = max(max(abs(coords_of(r, p)[k] - coords_of(ref, p)[k]) for k in ("x", "y")) for p in ids)
+            st["shape_D"] = max(st.get("shape_D", 0.0), D)
+            triples = [(a, b, c) for a in ids for b, c in itertools.combinations([p for p in ids if p != a], 2)]
+            if len(triples) > 120:
+                triples = triples[:: max(1, len(triples) // 120)]
+            for a, b, c in triples:
+                def ang(res):
+                    pa, pb, pc = coords_of(res, a), coords_of(res, b), coords_of(res, c)
+                    return (math.atan2(pc["y"] - pa["y"], pc["x"] - pa["x"])
+                            - math.atan2(pb["y"] - pa["y"], pb["x"] - pa["x"]))
+                pa, pb, pc = coords_of(ref, a), coords_of(ref, b), coords_of(ref, c)
+                dmin = min(math.hypot(pb["x"] - pa["x"], pb["y"] - pa["y"]), math.hypot(pc["x"] - pa["x"], pc["y"] - pa["y"]))
+                if dmin < 1e-3:
+                    continue
+                dev = abs((ang(ref) - ang(r) + math.pi) % (2 * math.pi) - math.pi)
+                tol = 4.0 * (D / dmin) ** 2 + (2e-6 if converged else 2e-7)
+                st["n_adj_shape_angles"] = st.get("n_adj_shape_angles", 0) + 1
+                st["angle_rad"] = max(st.get("angle_rad", 0.0), dev)
+                st["angle_dev_over_tol"] = max(st.get("angle_dev_over_tol", 0.0), dev / tol)
+                st["angle_second_order_allowance"] = max(st.get("angle_second_order_allowance", 0.0), 4.0 * (D / dmin) ** 2)
+                if dev > tol:
+                    bad.append(f"{who}: angle at {a} from {b} to {c} between adjusted points differs by {dev:.3g} rad "
+                               f"(first-order allowance {tol:.3g}: datum difference {D:.3g} m, shortest leg {dmin:.3g} m)")
+            st["n_adj_shape_distances"] = st.get("n_adj_shape_distances", 0) + len(pairs)
     # corrections of constrained coordinates orthogonal to the datum transformations
     for label, cons, r in ([] if converged else runs):
         ap = r.get("approx", {})
@@ -715,6 +745,8 @@ def net_stream(ctx, corr, n, gama_dir=None):
             for k, v in st.items():
                 if k == "iterated":
                     corr.count("net_runs_iterated", v)
+                elif k.startswith("n_"):
+                    corr.count(("net_" if it == 0 else "net_iterated_") + k[2:], v)
                 else:
                     corr.maxstat(("net_max_" if it == 0 else "net_iterated_max_") + k, v)
             if bad:
@@ -1120,6 +1152,13 @@ def svdsub_stream(ctx, corr, nprob):
 
 
 # =========================================================================== pipeline hooks
+
+def translate(ctx):
+    # round 11: Props/C08Invariants.lean is about the rows of the REGENERATED linearisation (Gen/Linearization.lean):
+    # make sure it is the current tree's (C05's translator, validated by C05's correspondence)
+    from gen import c05_linearization as tr_lin
+    tr_lin.translate(ctx.repo, ctx.lean)
+
 
 def correspond(ctx, corr):
     npairs = ls_stream(ctx, corr, ctx.size(40, 3000))
